@@ -3,6 +3,7 @@ import Spine.ApprovalFrame
 import Spine.ApprovalRefine
 import Spine.ApprovalConn
 import Spine.ApprovalWire
+import Spine.ApprovalEquiv
 /-!
 # C12 — write approval: unanimous, timely, exactly one outcome per write
 
@@ -39,7 +40,10 @@ Status of the clauses of the statement
 * across connections: see the section "across connections" below — the all-schedule theorems include the event
   `drop` on write instances (`c12_nothing_after_disconnect` is new); the counter-keyed family `Spine.ApprE` carries
   the two defects of the code there (`c12_reused_counter_refuted`, `c12_old_verdict_after_reuse_refuted`) and is
-  tied to the instance-keyed model by the driver's side-by-side run (validated, not proved).
+  tied to the instance-keyed model by a PROOF (second deepening round, `Spine/ApprovalEquiv.lean`): for the fully
+  repaired member the two models have the same outcomes on every event list, under any injective naming of the
+  instances (`c12_counter_keyed_equals_instance_keyed`), hence the all-schedule clauses hold of the model that keys
+  its maps as the code does (`c12_at_most_one_outcome_counter_keyed`); the driver's side-by-side run remains.
 * real time ("before the approval timeout" as wall-clock time, that `time.AfterFunc` fires after the duration and
   `Stop` reports truthfully): assumption A-time; the harness measures it, the model quantifies over when the timer
   fires.
@@ -204,6 +208,51 @@ theorem c12_reconnect_repaired :
       .arrive 5, .lookup 11 (1, 5), .commit 11 true]).outcomes = [] ∧
     (ApprE.run {} 1 [.arrive 5, .drop, .arrive 5, .lookup 10 (0, 5), .commit 10 true,
       .timeoutTake (1, 5), .timeoutSend (1, 5)]).outcomes = [((1, 5), .error)] := by decide
+
+/-- EQUIVALENCE of the model that keys its maps as the code does — by the message COUNTER, reused by a peer that
+    reconnects — with the instance-keyed model all the all-schedule theorems are about (fully repaired member of
+    both): for every number of callbacks, every injective naming `enc` of the write instances (epoch, counter) and
+    EVERY event list — arrivals, verdict lookups and commits, the two halves of timeouts, removals of the connection,
+    in any order, verdicts and timeouts of earlier connections arriving at any time — the outcomes are the same,
+    instance by instance and in the same order. (`trAll` renames the events; an arrival with counter `c` is the arrival
+    of instance (number of drops so far, c).) -/
+theorem c12_counter_keyed_equals_instance_keyed (enc : ApprE.Inst → Nat) (hinj : Function.Injective enc) (n : Nat)
+    (evs : List ApprE.Ev) :
+    (run Cfg.clean n (ApprEq.trAll enc { nCb := n } evs)).outcomes =
+      (ApprE.run {} n evs).outcomes.map fun x => (enc x.1, x.2) :=
+  ApprEq.outcomes_eq hinj n evs
+
+/-- non-vacuity: an injective naming exists, and on a history with a reused counter, a verdict of the earlier
+    connection that commits after the reuse, two callbacks and a timeout both sides produce the same two outcomes -/
+example : Function.Injective ApprEq.pairEnc ∧
+    (let evs : List ApprE.Ev := [.arrive 5, .lookup 10 (0, 5), .drop, .arrive 5, .commit 10 true, .lookup 11 (1, 5),
+        .commit 11 true, .arrive 6, .lookup 12 (1, 5), .commit 12 true, .timeoutTake (1, 6), .timeoutSend (1, 6)]
+     (ApprE.run {} 2 evs).outcomes = [((1, 5), .applied), ((1, 6), .error)] ∧
+     (run Cfg.clean 2 (ApprEq.trAll ApprEq.pairEnc { nCb := 2 } evs)).outcomes =
+       [(ApprEq.pairEnc (1, 5), .applied), (ApprEq.pairEnc (1, 6), .error)]) :=
+  ⟨ApprEq.pairEnc_injective, by decide⟩
+
+/-- hence "no write ever has two outcomes" for the counter-keyed model itself: under every event list — counters
+    reused across any number of connections — no write INSTANCE has two outcomes. -/
+theorem c12_at_most_one_outcome_counter_keyed (n : Nat) (evs : List ApprE.Ev) (i : ApprE.Inst) :
+    ((ApprE.run {} n evs).outcomes.filter (·.1 = i)).length ≤ 1 := by
+  have h := c12_at_most_one_outcome n (ApprEq.trAll ApprEq.pairEnc { nCb := n } evs) (ApprEq.pairEnc i)
+  rw [c12_counter_keyed_equals_instance_keyed _ ApprEq.pairEnc_injective, List.filter_map, List.length_map] at h
+  have hf : (ApprE.run {} n evs).outcomes.filter ((fun x : Nat × Out => decide (x.1 = ApprEq.pairEnc i)) ∘
+      fun x => (ApprEq.pairEnc x.1, x.2)) = (ApprE.run {} n evs).outcomes.filter (·.1 = i) := by
+    apply List.filter_congr
+    intro x _
+    simp only [Function.comp]
+    by_cases hx : x.1 = i
+    · simp [hx]
+    · have : ApprEq.pairEnc x.1 ≠ ApprEq.pairEnc i := fun h' => hx (ApprEq.pairEnc_injective h')
+      simp [hx, this]
+  rw [hf] at h
+  exact h
+
+example : ((ApprE.run {} 1 [.arrive 5, .drop, .arrive 5, .lookup 10 (0, 5), .commit 10 true,
+    .timeoutTake (1, 5), .timeoutSend (1, 5), .lookup 11 (1, 5), .commit 11 true]).outcomes.filter
+      (·.1 = (1, 5))).length = 1 := by decide
 
 /-! ### refinement: applied ⇔ unanimous in time, independence (repaired member) -/
 
